@@ -449,6 +449,32 @@ func runC11(c *Ctx) {
 			}
 		})
 		c.check(cls != nil && del != nil && cls.Block() == del.Block(), "R4", "RequestServer sweep deletes", p.Pos(rsServe.Pos()), "swept requests are removed from the table", "the sweep closes requests but leaves them in the table")
+		// every request swept is told why: what transferError gets is the session's error (what the receive loop ended
+		// with, an end of stream turned into an unexpected one) and nothing the sweep itself produced on the way
+		nTE := 0
+		eachInstr(rsServe, func(in ssa.Instruction) {
+			cc := callOf(in)
+			if cc == nil || calleeName(cc) != "transferError" || len(argsOf(cc)) != 1 {
+				return
+			}
+			nTE++
+			bad := ""
+			for _, l := range leavesOf(argsOf(cc)[0]) {
+				switch {
+				case l.Kind == leafCallResult && calleeName(l.Call) == "serveLoop":
+				case l.Kind == leafGlobal && (l.V.Name() == "ErrUnexpectedEOF" || l.V.Name() == "EOF"):
+				case l.Kind == leafParam:
+				default:
+					bad = "a value that is not the session's error"
+					if l.Kind == leafCallResult {
+						bad = "the result of " + calleeName(l.Call)
+					}
+				}
+			}
+			c.check(bad == "", "R4", "RequestServer sweep reports the session's error", p.Pos(in.Pos()), "transferError(err of the receive loop)",
+				"a swept request can be told "+bad+" instead of the error the session ended with (for all but the first request that is nil: its reader or writer is not told that the transfer stopped short)")
+		})
+		c.check(nTE >= 1, "R4", "RequestServer sweep calls transferError", p.Pos(rsServe.Pos()), fmt.Sprintf("%d calls", nTE), "the sweep no longer tells the open requests that the session ended")
 	} else {
 		c.missing("R4", "(*RequestServer).Serve")
 	}
